@@ -140,6 +140,12 @@ func c05Alphabet(t c05Target) []([]mOp) {
 	one(mOp{Kind: "update", Pt: pt, R1: [][]string{R[3]}, R2: [][]string{R[0]}})
 	one(mOp{Kind: "updatemany", Pt: pt, R1: [][]string{R[0], R[1]}, R2: [][]string{R[2], R[3]}})
 	one(mOp{Kind: "updatemany", Pt: pt, R1: [][]string{R[2], R[3]}, R2: [][]string{R[1], R[0]}})
+	// identity and overlapping updates: old and new rules resolve to the same links, so the order
+	// "remove the old links, then add the new ones" is observable (outside the F08 guard when the
+	// rules are listed: correspondence and link predicate only, successors not explored)
+	one(mOp{Kind: "update", Pt: pt, R1: [][]string{R[1]}, R2: [][]string{R[1]}})
+	one(mOp{Kind: "updatemany", Pt: pt, R1: [][]string{R[0], R[1]}, R2: [][]string{R[1], R[2]}})
+	one(mOp{Kind: "updatemany", Pt: pt, R1: [][]string{R[2], R[0]}, R2: [][]string{R[2], R[3]}})
 	one(mOp{Kind: "removefiltered", Pt: pt, Fi: 0, Fvs: []string{R[0][0]}})
 	one(mOp{Kind: "removefiltered", Pt: pt, Fi: 1, Fvs: []string{R[0][1]}})
 	if len(R[0]) == 3 {
@@ -175,7 +181,7 @@ func c05Guard(cur [][]string, ops []mOp, pt string) bool {
 		}
 		if o.Kind == "updatemany" {
 			for _, n := range o.R2 {
-				if containsRule(cur, n) {
+				if containsRule(cur, n) || containsRule(o.R1, n) {
 					return false
 				}
 			}
@@ -227,14 +233,20 @@ func init() {
 					seen[m0.listedKey()] = true
 				}
 				for ai, a := range al {
-					if !c05Guard(cur, a, t.pt) {
-						c.Count("skipped-outside-guard(F08)")
-						continue
-					}
+					inGuard := c05Guard(cur, a, t.pt)
 					ops := append(append([]mOp(nil), n.path...), a...)
 					id := fmt.Sprintf("c05.%d.s%d.o%d", ti, nstates, ai)
-					key := c05Run(c, id, t, content, true, ops, true)
+					key := c05Run(c, id, t, content, true, ops, inGuard)
 					c.NonTrivial(fmt.Sprintf("%d|%s|%d", ti, rulesKey(cur), ai))
+					if !inGuard {
+						// update onto a listed rule (F08 territory of C06: the listing may hold a rule
+						// twice or lose one afterwards, and the links follow the call's arguments, not
+						// the listing).  The model follows the code there, so the call is compared with
+						// the model (correspondence only, no fresh-enforcer predicate); the resulting
+						// state is not explored further.
+						c.Count("outside-F08-guard(compared, successors not explored)")
+						continue
+					}
 					if !seen[key] {
 						seen[key] = true
 						queue = append(queue, node{path: ops})
